@@ -1,6 +1,7 @@
 import ColoVerif.Model.BusyIO
 import ColoVerif.Gen.Api
 import ColoVerif.Gen.Params
+import ColoVerif.Gen.ApiExpansion
 import Driver.Common
 /-
 Driver for C19: evaluates the translated check predicates, constructor event lists, default table
@@ -14,6 +15,10 @@ and setter skeletons on the op lines of harness/h_C19.cpp.
   place <call>                -> place <call> accepted | place <call> rejected throw:runtime_error <message>
   placeeffort <call> <effort> -> placeeffort <call> <outcome of ColoquinteParameters(effort)>
   set <name> <nc> <nn> …      -> set <name> <outcome>   (on a circuit that is not in use)
+  xset <name> <nc> <nn> <xarg>* -> xset <name> <outcome>  (expansion API / Disruption methods / computeCellExpansion,
+                                 tables of Gen.ApiExpansion)   xarg ::= v <len> 0 | v <len> 1 <int>*len | i <int>
+                                 | f <mant> <exp> (a binary32 scalar m·2^e) | vf <len> (<mant> <exp>)*len
+  newcircuit <n>              -> newcircuit ok | newcircuit throw:length_error     (Circuit(int), table `constructors`)
 -/
 open ColoVerif ColoVerif.Busy ColoVerif.BusyIO ColoVerif.ApiIR ColoVerif.Gen Driver
 
@@ -24,6 +29,31 @@ def ctorOutcome (rec : String) (e : Int) : String :=
   match Params.ctorIR.find? (fun c => c.1 == rec) with
   | some c => showCtorOut (runCtor e c.2)
   | none => "unknown-record"
+
+/-- the binary32 value `m · 2^e` as the integer of the tables (`x · 2^floatScale`) -/
+def scaleF (m e : Int) : Int := m * 2 ^ (e + (ApiExpansion.floatScale : Int)).toNat
+
+def scaledPairs : Nat → List String → List Int
+  | 0, _ => []
+  | n + 1, m :: e :: rest => scaleF (BusyIO.int! m) (BusyIO.int! e) :: scaledPairs n rest
+  | _, _ => []
+
+def parseXArgs : Nat → List String → List Arg
+  | 0, _ => []
+  | fuel + 1, "v" :: len :: "0" :: rest => ⟨BusyIO.int! len, [], 0⟩ :: parseXArgs fuel rest
+  | fuel + 1, "v" :: len :: "1" :: rest =>
+    ⟨BusyIO.int! len, (rest.take (BusyIO.int! len).toNat).map BusyIO.int!, 0⟩ :: parseXArgs fuel (rest.drop (BusyIO.int! len).toNat)
+  | fuel + 1, "i" :: v :: rest => ⟨0, [], BusyIO.int! v⟩ :: parseXArgs fuel rest
+  | fuel + 1, "f" :: m :: e :: rest => ⟨0, [], scaleF (BusyIO.int! m) (BusyIO.int! e)⟩ :: parseXArgs fuel rest
+  | fuel + 1, "vf" :: len :: rest =>
+    ⟨BusyIO.int! len, scaledPairs (BusyIO.int! len).toNat rest, 0⟩ :: parseXArgs fuel (rest.drop (2 * (BusyIO.int! len).toNat))
+  | _, _ => []
+
+/-- the line both sides print for a call of a method of `Gen.ApiExpansion` -/
+def xLine (name : String) (before : St) (r : Res) : String :=
+  match r.out with
+  | .thrown => "xset " ++ name ++ " throw:runtime_error w=" ++ toString (r.st.writes.length - before.writes.length)
+  | o => "xset " ++ name ++ " " ++ showOutcome o
 
 def step (s : DS) : List String → DS × List String
   | ["case", k] => (s, ["case " ++ k])
@@ -49,6 +79,14 @@ def step (s : DS) : List String → DS × List String
     match parseSetter rest with
     | some sc => (s, [setterLine sc.name ⟨false, []⟩ (runSetter Api.setters sc ⟨false, []⟩)])
     | none => (s, ["bad-set"])
+  | "xset" :: name :: nc :: nn :: rest =>
+    let sc : SetterCall := ⟨name, ⟨BusyIO.int! nc, BusyIO.int! nn, parseXArgs rest.length rest⟩⟩
+    (s, [xLine name ⟨false, []⟩ (runSetter (ApiExpansion.validated ++ ApiExpansion.constValidated) sc ⟨false, []⟩)])
+  | ["newcircuit", n] =>
+    let r := runSetter ApiExpansion.constructors ⟨"Circuit", ⟨0, 0, [⟨0, [], BusyIO.int! n⟩]⟩⟩ ⟨false, []⟩
+    (s, ["newcircuit " ++ (match r.out with
+      | .thrown => "throw:length_error"   -- the leading throwIf of the constructor is std::vector::resize's refusal
+      | o => showOutcome o)])
   | [] => (s, [])
   | ws => (s, ["bad-op " ++ " ".intercalate ws])
 
